@@ -78,6 +78,16 @@ def library(ctx, m): return library_ref(ctx.bytes_('lh', 32))
 def ord_over_library(ctx, m): return O(ctx, 'x', 4, [library_ref(ctx.bytes_('lh', 32))])
 
 
+PAIR_SHAPES = {
+    # two siblings of arbitrary, possibly incomparable, level masks below one parent
+    'mupd_pruned': lambda ctx, a, b: sym_mupd(ctx, 'mu', sym_pruned(ctx, 'p', a), sym_pruned(ctx, 'q', b)),
+    'mupd_ord': lambda ctx, a, b: sym_mupd(ctx, 'mu', O(ctx, 'x', 9, [sym_pruned(ctx, 'p', a)]), O(ctx, 'y', 3, [sym_pruned(ctx, 'q', b)])),
+    'ord_pruned2': lambda ctx, a, b: O(ctx, 'x', 8, [sym_pruned(ctx, 'p', a), sym_pruned(ctx, 'q', b)]),
+    'ord_over_mupd': lambda ctx, a, b: O(ctx, 't', 5, [sym_mupd(ctx, 'mu', sym_pruned(ctx, 'p', a), sym_pruned(ctx, 'q', b)), O(ctx, 'z', 2, [])]),
+    'mproof_over_mupd': lambda ctx, a, b: sym_mproof(ctx, 'mh', sym_mupd(ctx, 'mu', sym_pruned(ctx, 'p', a), sym_pruned(ctx, 'q', b))),
+}
+
+
 def check_cell(ctx, sc, rc, tag):
     ctx.require(rc.level_mask.mask == sc.mask, f'{tag}: level mask')
     for lvl in range(4):
@@ -103,6 +113,18 @@ def h_exotic(ctx, shape, m, route='ctor', twin=None):
             check_cell(ctx, s_kid, r_kid, shape + ' child')
             ctx.require(r_kid.type_ == s_kid.typ, f'{shape}: parsed child type')
         ctx.require(rc.type_ == sc.typ, f'{shape}: parsed type')
+
+
+def h_pair(ctx, shape, a, b, route='ctor'):
+    """level masks, per-level hashes and depths of a cell over two children with level masks a and b (all 49 pairs:
+    comparable and incomparable masks alike)"""
+    sc = warm(PAIR_SHAPES[shape](ctx, a, b))
+    rc = to_real(sc, via='ctor')
+    if route == 'boc':
+        rc = Cell.one_from_boc(rc.to_boc())
+    check_cell(ctx, sc, rc, shape)
+    for s_kid, r_kid in zip(sc.refs, rc.refs):
+        ctx.require(r_kid.level_mask.mask == s_kid.mask, f'{shape}: child level mask')
 
 
 # ------------------------------------------------------------------------------- pruning invariance
@@ -172,6 +194,15 @@ def instances(tier, seed):
             if sh in ('pruned', 'ord_over_pruned', 'mproof_ord_pruned', 'mupd', 'library'):
                 yield 'h_exotic', dict(shape=sh, m=m, route='builder')
                 yield 'h_exotic', dict(shape=sh, m=m, route='boc')
+    for a in range(1, 8):
+        for b in range(1, 8):
+            incomparable = (a | b) not in (a, b)
+            for sh in PAIR_SHAPES:
+                if tier == 'quick' and not (sh == 'mupd_pruned' or (incomparable and (a * 7 + b + seed) % 3 == 0)):
+                    continue
+                yield 'h_pair', dict(shape=sh, a=a, b=b)
+            if incomparable or tier == 'thorough':
+                yield 'h_pair', dict(shape='mupd_pruned', a=a, b=b, route='boc')
     for tree, spec in TREES.items():
         paths = [p for p, _ in nodes_with_paths(build_fake(spec)) if p]
         subsets = []
@@ -200,7 +231,9 @@ def twins(tier, seed):
 
 BOUNDS = {
     'shapes': sorted(SHAPES) + ['pruning: trees ' + ', '.join(TREES) + ' with every antichain of pruned subtrees (quick: an eighth of them)'],
-    'masks': 'pruned-branch level masks 1..7 in every shape; gap masks through siblings',
+    'masks': 'pruned-branch level masks 1..7 in every shape; gap masks through siblings; all 49 pairs of sibling masks under a Merkle update '
+             '(plain and over ordinary cells, under an ordinary cell, under a Merkle proof) and under an ordinary cell (quick: all pairs for the '
+             'update over two pruned branches, a seeded third of the incomparable pairs for the other shapes)',
     'symbolic': 'all ordinary data; the 32-byte hashes and 16-bit depths (<= 1000) stored in pruned branches; Merkle cell payloads; library hashes',
     'routes': 'Cell constructor, Builder(type_=...), BoC round trip (Boc.deserialize_cell exotic path)',
 }
